@@ -155,4 +155,24 @@ PROPS = {
                  thorough=ev("^ZZ_C06_C07_", "1-2 rules", "more policies", models=300)),
         ],
     ),
+    "C04": dict(
+        assumptions=[VALIDITY, "c1 and c2 are read off the two list results the diff was computed from (the property's own definition); connections carry concrete contents (the diff keys and compares them by their canonical text)"],
+        groups=[
+            dict(pkg=DIFF, harness="harness/diff", shared="harness/shared", extra=[["pkg/netpol/connlist", "harness/extra_connlist"]],
+                 quick=ev("^ZZ_C04_", "two worlds: workloads a,b (side 2 optionally with a new workload or without b), each side no policy or a policy with egress to a symbolic ipBlock "
+                          "(prefix lengths {0,24}; except on side 1) and to app=b, port shapes per rule; one symbolic external address and all workload pairs checked against the four diff lists; diff(A,A)",
+                          "more than one ipBlock per side; other prefix lengths; ingress-controller lines; output formats", models=40),
+                 thorough=ev("^ZZ_C04_", "prefix lengths {0,1,8,24,31,32} + all 33 for one CIDR, excepts on both sides, 3 port shapes per rule", "more ipBlocks per side", models=300, maxpaths=2000000)),
+        ],
+    ),
+    "C13": dict(
+        assumptions=["partial: the logic around the readers. The file scanner and the unstructured->typed converter are environment: under symgo the conversion hands back the typed object the harness registered (or fails); natively the real converter runs on equivalent unstructured content",
+                     "not claimed: that the real scanner/decoder classify arbitrary bytes that way (DESIGN section 7)"],
+        groups=[
+            dict(pkg=CONNLIST, harness="harness/connlist", shared="harness/shared",
+                 quick=ev("^ZZ_C13_", "ConnlistFromResourceInfos on good resource infos plus <=2 bad documents of 3 kinds (unused kind, non-unstructured object, failing schema conversion) at every position, stopOnError on/off; "
+                          "connections compared with the clean input by the solver (symbolic policy range); severe errors counted",
+                          "ConnlistFromDirPath / file scanning; diff variant; more than 2 bad documents", models=40)),
+        ],
+    ),
 }
